@@ -77,12 +77,23 @@ let () =
       let (t, _) = parse_tree toks in
       let es = tar_entries (comps pre) (repro = "1") t in
       Printf.printf "%s ENT %s\n" id (String.concat "," (List.map show_entry es))
-    | id :: "X" :: umask :: preserve :: pre :: toks ->
+    | id :: "XG" :: umask :: preserve :: pre :: toks ->
+      (* the base directory is set-group-ID (destination working directory setgid) *)
+      let (t, _) = parse_tree toks in
+      let es = tar_entries (comps pre) false t in
+      let um = n_of_int (int_of_string umask) in
+      let hyp = if is_dir t && wf_treeb t && modes_okb t && benign_tree (comps pre) t then "B1" else "B0" in
+      let f0 = fs_init_sg um sgid in
+      (match extract_list_partial true (comps pre) um (preserve = "1") f0 es with
+       | (f, None) -> Printf.printf "%s %s OK %s\n" id hyp (show_fs (finish_dirs (comps pre) (preserve = "1") es f))
+       | (_, Some (XAbsLink | XWriteThrough)) -> Printf.printf "%s UNJUDGED\n" id
+       | (_, Some e) -> Printf.printf "%s %s %s\n" id hyp (show_err e))
+    | id :: (("X" | "XU") as k) :: umask :: preserve :: pre :: toks ->
       let (t, _) = parse_tree toks in
       let es = tar_entries (comps pre) false t in
       (* B1 = the hypotheses of the round-trip theorems hold for this tree *)
       let hyp = if is_dir t && wf_treeb t && modes_okb t && benign_tree (comps pre) t then "B1" else "B0" in
-      (match extract (comps pre) (n_of_int (int_of_string umask)) (preserve = "1") es with
+      (match extract_p (k = "X") (comps pre) (n_of_int (int_of_string umask)) (preserve = "1") es with
        | Ok f -> Printf.printf "%s %s OK %s\n" id hyp (show_fs f)
        | Err (XAbsLink | XWriteThrough) -> Printf.printf "%s UNJUDGED\n" id
        | Err e -> Printf.printf "%s %s %s\n" id hyp (show_err e))
@@ -102,7 +113,7 @@ let () =
          let eq = (tar_entries (comps pre) r ta = tar_entries (comps pre) r tb) in
          Printf.printf "%s %s\n" id (if eq then "EQ" else "NE")
        | _ -> Printf.printf "BADLINE %s\n" l)
-    | id :: "E" :: umask :: preserve :: pre :: n :: toks ->
+    | id :: (("E" | "EU") as k) :: umask :: preserve :: pre :: n :: toks ->
       let rec ents k toks acc =
         if k = 0 then List.rev acc else
         match toks with
@@ -114,15 +125,15 @@ let () =
           ents (k - 1) rest ({ e_name = comps nm; e_kind = kind; e_mode = n_of_int (int_of_string mode); e_mtime = n_of_int 0 } :: acc)
         | _ -> failwith "entries" in
       let es = ents (int_of_string n) toks [] in
-      (match extract (comps pre) (n_of_int (int_of_string umask)) (preserve = "1") es with
-       | Ok f -> Printf.printf "%s OK %s\n" id (show_fs f)
-       | Err (XAbsLink | XWriteThrough) -> Printf.printf "%s UNJUDGED\n" id
-       | Err e -> Printf.printf "%s %s\n" id (show_err e))
+      (match extract_partial (k = "E") (comps pre) (n_of_int (int_of_string umask)) (preserve = "1") es with
+       | (f, None) -> Printf.printf "%s OK %s\n" id (show_fs f)
+       | (_, Some (XAbsLink | XWriteThrough)) -> Printf.printf "%s UNJUDGED\n" id
+       | (f, Some e) -> Printf.printf "%s %s RES %s\n" id (show_err e) (show_fs f))
     | [id; "M"; fc; inn; pushed; layers] ->
       let s = copy_into (fc = "1") (inn = "1") (pairs pushed) (pairs layers) in
       let names = List.sort compare (List.map (fun (nm, d) -> Printf.sprintf "%s:%d" (hex_of_str nm) (int_of_nat d)) s.s_names) in
       Printf.printf "%s NAMES %s\n" id (String.concat "," names)
-    | id :: "U" :: umask :: preserve :: ck :: dok :: sok :: pre :: toks ->
+    | id :: (("U" | "UU") as k) :: umask :: preserve :: ck :: dok :: sok :: pre :: toks ->
       let (t, _) = parse_tree toks in
       let blob = [n_of_int 0] and tarb = [n_of_int 1] in
       let h s = if s = blob then 10 else 20 in
@@ -132,9 +143,23 @@ let () =
                 d_checksum = (match ck with "1" -> Some 20 | "2" -> Some 21 | _ -> None) } in
       let r = unpack h (fun a b -> a = b) (fun _ -> Some (tar_entries (comps pre) false t)) (fun _ -> Some tarb)
                 (n_of_int (int_of_string umask)) (preserve = "1") d blob in
+      (* UU: pushed by an unprivileged owner -- the extraction inside must also pass the permission check *)
+      let r = match r with
+        | Ok f when k = "UU" ->
+          (match extract_p false (comps pre) (n_of_int (int_of_string umask)) (preserve = "1") (tar_entries (comps pre) false t) with
+           | Ok _ -> Ok f
+           | Err e -> Err e)
+        | _ -> r in
+      let um = n_of_int (int_of_string umask) in
+      let residue =
+        if k = "U" then
+          unpack_residue h (fun a b -> a = b) (fun _ -> Some (tar_entries (comps pre) false t)) (fun _ -> Some tarb) um (preserve = "1") d blob
+        else if dok = "1" && sok = "1" then
+          fst (extract_partial false (comps pre) um (preserve = "1") (tar_entries (comps pre) false t))
+        else fs_init um in
       (match r with
-       | Ok _ -> Printf.printf "%s OK\n" id
+       | Ok _ -> Printf.printf "%s OK RES %s\n" id (show_fs residue)
        | Err (XAbsLink | XWriteThrough) -> Printf.printf "%s UNJUDGED\n" id
-       | Err _ -> Printf.printf "%s ERR\n" id)
+       | Err _ -> Printf.printf "%s ERR RES %s\n" id (show_fs residue))
     | [] -> ()
     | _ -> Printf.printf "BADLINE %s\n" l)
